@@ -54,3 +54,5 @@ func (v *VerifRing) Fields() (uint64, uint64, bool, uint64, uint64, uint64) {
 	defer v.rb.RUnlock()
 	return v.rb.capacity, v.rb.head, v.rb.full, v.rb.id, v.rb.lowestId, v.rb.resizeOffset
 }
+
+func VerifNewEventStore(size uint64) *EventStore { return newEventStore(size) }
